@@ -26,4 +26,6 @@ run MCCount  MCNegD8       NoErr         # FixD8 = FALSE, debug: (hint + 1) / 2 
 run MCCloneFrom MCNegD9    Findable      # FixD9 = FALSE: clone_from interrupted while carrying the leftovers
 run MCEntry MCEntryS18     HandleCoherent # OccupiedEntry::insert carries: the handle's bucket is vacated under it (seeds S18/S23/S27)
 run MCEntry MCEntryS38     HandleCoherent # or_insert* on a present old-table key carries before returning the reference (seed S38)
+run MCIters MCItersS52    ItExact        # into_iter / drain drop the old table when lo.len() == 0 and return that call's None (seed S52)
+run MCIters MCItersS29    CursorAtRest   # retain's erase does not reflect, one re-sync after the loop: a panicking predicate leaves the cursor stale (seed S29)
 exit $rc
